@@ -57,12 +57,23 @@ def meshes():
     of = [(0, 2, 4), (2, 1, 4), (1, 3, 4), (3, 0, 4), (2, 0, 5), (1, 2, 5), (3, 1, 5), (0, 3, 5)]
     M["octa"] = convex_mesh(ov, of)
     M["Lprism"] = prism_from_polygon([(0, 0), (2, 0), (2, 1), (1, 1), (1, 2), (0, 2)], [(0, 1, 2), (0, 2, 3), (0, 3, 4), (0, 4, 5)], 1.0)
+    # a cube with a tiny corner chamfer (one face far smaller than the body) and a thin, obliquely placed rod (faces of
+    # aspect ratio 200, small end caps): the reorientation seed may be any of these faces
+    ch = 0.002
+    chv = [(0, 0, 0), (1, 0, 0), (0, 1, 0), (1, 1, 0), (0, 0, 1), (1, 0, 1), (0, 1, 1), (1 - ch, 1, 1), (1, 1 - ch, 1), (1, 1, 1 - ch)]
+    from scipy.spatial import ConvexHull
+    from scipy.spatial.transform import Rotation as _R
+
+    M["chamfer"] = convex_mesh(chv, [tuple(int(i) for i in t) for t in ConvexHull(np.array(chv)).simplices])
+    rv = np.array([(x, y, z) for x in (0, 0.005) for y in (0, 0.005) for z in (0, 1.0)], float)
+    rv = _R.from_rotvec((0.4, -0.7, 0.3)).apply(rv) + (0.1, 0.2, -0.05)
+    M["rod"] = convex_mesh(rv, cf)
     M["Uprism"] = prism_from_polygon([(0, 0), (3, 0), (3, 2), (2, 2), (2, 1), (1, 1), (1, 2), (0, 2)],
                                      [(0, 1, 4), (1, 2, 3), (1, 3, 4), (0, 4, 5), (0, 5, 7), (5, 6, 7)], 0.7)
     return M
 
 
-KNOWN_VOLUME = {"cube": 1.0 * 1.2 * 0.8, "Lprism": 3.0, "Uprism": 5.0 * 0.7, "prism": 0.5 * 1.4 * 1.1 * 0.9}
+KNOWN_VOLUME = {"chamfer": 1.0 - 0.002 ** 3 / 6, "rod": 0.005 * 0.005 * 1.0, "cube": 1.0 * 1.2 * 0.8, "Lprism": 3.0, "Uprism": 5.0 * 0.7, "prism": 0.5 * 1.4 * 1.1 * 0.9}
 
 
 def signed_volume(v, f):
@@ -107,11 +118,13 @@ def ref_H(name, scale):
 
 
 # ------------------------------------------------------------------ case kinds
-def variant(v, f, order, flips, renum):
-    """apply a face order, flip a subset of faces, renumber vertices"""
+def variant(v, f, order, flips, renum, cyc=0):
+    """apply a face order, flip a subset of faces, renumber vertices; cyc rotates the index triple of the first face"""
     f2 = np.array(f)[list(order)].copy()
     for i in flips:
         f2[i] = f2[i][[0, 2, 1]]
+    if cyc:
+        f2[0] = np.roll(f2[0], cyc)
     perm = np.array(renum)          # new index of old vertex k is perm[k]
     v2 = np.empty_like(v)
     v2[perm] = v
@@ -139,7 +152,7 @@ def run_orient(c):
     nf = len(f)
     order = c["order"]
     flips = [i for i in range(nf) if (c["flipmask"] >> i) & 1]
-    v2, f2, perm = variant(v, f, order, flips, c["renum"])
+    v2, f2, perm = variant(v, f, order, flips, c["renum"], c.get("cyc", 0))
     if c.get("unused"):
         v2, f2, perm = add_unused_vertices(v2, f2, perm, c["unused"], c.get("unused_where", "inside"), scale)
     try:
@@ -284,8 +297,64 @@ def run_derived(c):
     return ";".join(problems) if problems else None
 
 
+# ------------------------------------------------------------------ histories on one mesh object
+HIST_OPS = ["getH", "mesh", "reorient", "check_open", "triangles", "copy"]
+
+
+def run_history(c):
+    """a mesh built WITHOUT reorientation from wrongly wound faces, then any sequence of reads and repairs: once
+    reorient_faces() has run, faces, field, Triangle-collection and copies must all describe the outward oriented body"""
+    import itertools as it
+
+    name = c["mesh"]
+    v, f = meshes()[name]
+    flips = [i for i in range(len(f)) if (c["flipmask"] >> i) & 1]
+    v2, f2, perm = variant(v, f, list(range(len(f))), flips, list(range(len(v))))
+    import magpylib as magpy
+
+    m = magpy.magnet.TriangularMesh(vertices=v2, faces=f2, polarization=(0.3, -0.2, 0.8), check_open="skip", check_disconnected="skip",
+                                    check_selfintersecting="skip", reorient_faces="skip")
+    pts = outside_points(v)
+    repaired = False
+    problems = []
+    for op in c["ops"]:
+        if op == "getH":
+            m.getH(pts)
+        elif op == "mesh":
+            _ = m.mesh
+        elif op == "reorient":
+            m.reorient_faces(mode="ignore")
+            repaired = True
+        elif op == "check_open":
+            m.check_open(mode="ignore")
+        elif op == "triangles":
+            m.to_TriangleCollection()
+        elif op == "copy":
+            m = m.copy()
+    if not repaired:
+        return None
+    truth = oriented_set(np.array(f))
+    if oriented_set(m.faces) != truth:
+        problems.append("faces-not-outwards-after-reorient_faces")
+    R = ref_H(name, 1.0)
+    H = m.getH(pts)
+    if np.max(np.abs(H - R)) > 1e-10 * np.max(np.abs(R)):
+        problems.append("field-not-updated-after-reorient_faces")
+    Ht = m.to_TriangleCollection().getH(pts)
+    if np.max(np.abs(Ht - R)) > 1e-9 * np.max(np.abs(R)):
+        problems.append("triangle-collection-not-updated-after-reorient_faces")
+    if oriented_set(m.mesh.tolist() and [tuple(t) for t in np.asarray(m.faces)]) != truth:
+        problems.append("mesh-property-stale")
+    mesh_from_faces = np.asarray(m.vertices)[np.asarray(m.faces)]
+    if not np.array_equal(np.asarray(m.mesh), mesh_from_faces):
+        problems.append("mesh-property-differs-from-vertices[faces]")
+    return ";".join(problems) if problems else None
+
+
 def work(c):
     try:
+        if c["part"] == "history":
+            return run_history(c)
         return run_orient(c) if c["part"] == "orient" else run_derived(c)
     except Exception as e:
         import traceback
@@ -340,6 +409,16 @@ def enumerate_cases(tier):
                             continue
                         cases.append({"part": "orient", "mesh": name, "order": order, "flipmask": int(mask), "renum": renum,
                                       "field": mask % 64 == 1, "full": mask % 16 == 0})
+    # small / thin seed faces: every face first, in each cyclic index order, wound either way, a few other flips
+    for name in ("chamfer", "rod"):
+        v, f = M[name]
+        nf, nv = len(f), len(v)
+        for first in range(nf):
+            base = list(range(first, nf)) + list(range(first))
+            for cyc in (0, 1, 2):
+                for mask in (0, 1, 2, 3, (1 << nf) - 1, (1 << nf) - 2):
+                    cases.append({"part": "orient", "mesh": name, "order": base, "flipmask": int(mask), "renum": list(range(nv)), "cyc": cyc,
+                                  "field": mask in (0, 1), "full": True})
     # vertices that no face refers to (e.g. interior points kept by from_ConvexHull, filtered meshes)
     for name in ("tetra", "cube", "octa", "Lprism"):
         v, f = M[name]
@@ -356,6 +435,15 @@ def enumerate_cases(tier):
                               "unused": where, "unused_where": "inside", "hull": True})
                 cases.append({"part": "orient", "mesh": name, "order": base, "flipmask": 0, "renum": list(range(nv))[::-1],
                               "unused": where, "unused_where": "inside", "hull": True})
+    # read / repair histories on a mesh built with reorient_faces='skip'
+    for name in ("tetra", "cube"):
+        nf = len(M[name][1])
+        for mask in (1, 5, (1 << nf) - 1, (1 << nf) - 2):
+            for n in (1, 2, 3):
+                for ops in itertools.product(HIST_OPS, repeat=n):
+                    if "reorient" not in ops:
+                        continue
+                    cases.append({"part": "history", "mesh": name, "flipmask": int(mask), "ops": list(ops)})
     scales = [1e-3, 1.0, 1e2]
     # open meshes: every subset of <= 2 deleted faces
     for name in ("tetra", "cube", "octa", "Lprism"):
@@ -423,7 +511,9 @@ def run(tier, seed):
         if r.startswith("HARNESS"):
             harness.append(f"{c}: {r}")
             continue
-        if c["part"] == "orient":
+        if c["part"] == "history":
+            key = f"C16|history|{c['mesh']}|{r.split(';')[0]}"
+        elif c["part"] == "orient":
             key = f"C16|orient|{c['mesh']}|{r.split(';')[0]}"
         else:
             key = f"C16|{c['kind']}|{c['mesh']}|scale={c['scale']}|{r.split(';')[0]}"
@@ -431,7 +521,7 @@ def run(tier, seed):
     north = sum(1 for c in cases if c["part"] == "orient")
     cov = {
         "evaluations": len(cases),
-        "distinct_nontrivial": sum(1 for c in cases if c["part"] == "derived" or c["flipmask"] or c["order"] != sorted(c["order"])),
+        "distinct_nontrivial": sum(1 for c in cases if c["part"] in ("derived", "history") or c["flipmask"] or c["order"] != sorted(c["order"])),
         "rule": "one evaluation = one TriangularMesh construction from a variant of a mesh whose outward faces are known by "
                 "construction; variants are distinct (face order, flip subset, vertex renumbering | deleted faces | part "
                 "interleaving, flips, offset, scale); non-trivial = anything but the canonical input",
